@@ -420,3 +420,15 @@ _c = PROPS["C15"]; _c["modules"] = list(_c.get("modules", ["C15"])) + ["C15C"]; 
 _c = PROPS["C10"]; _c["modules"] = list(_c.get("modules", ["C10"])) + ["C10M"]; _c["theorems"] = list(_c["theorems"]) + ["C10_valEq_ids_iff_perm", "C10_valEq_ids_iff_sort", "C10_valEq_ids_not_set_counterexample", "C10_model_ids_iff_perm", "C10_model_ids_perm_invariant", "C10_comparable_of_hasAttrType", "C10_comparable_iff", "C10_model_checkVal", "C10_ord_isSome", "C10_valOrdered_eq", "C10_valLt_ordered", "C10_evalCmp_not_ordered", "C10_trichotomy_sval", "C10_model_complement", "C10_model_le_ge", "C10_comparable_symm", "C10_model_gt_swap", "C10_model_trichotomy", "C10_model_unordered", "C10_model_nil", "C10_model_nil_right", "C10_model_unordered_bool", "C10_model_unordered_ids", "C10_model_unknown_op", "C10_getAttrVal_cases", "C10_leafWellTyped_cmp", "C10_leaf_checkVal", "C10_cmp_ops", "C10_isNil_fieldVal", "C10_isAllowed_complement", "C10_isAllowed_le_ge", "C10_isAllowed_trichotomy", "C10_isAllowed_nil", "C10_isAllowed_nil_right", "C10_isAllowed_unordered", "C10_isAllowed_unknown_op", "C10_isAllowed_ids_iff_perm", "C10_wellTypedAll_mem", "C10_evalAll_iff", "C10_evalAny_iff", "C10_isAllowed_and", "C10_isAllowed_or", "C10_isAllowed_empty", "C10_isAllowed_in", "C10_isAllowed_has"]; _c["level_text"] += " On the MODEL (Props/C10M.lean): the laws are transferred to checkVal for every comparable pair - two values or two pointers of one kind, or two ID lists - (C10_model_complement, C10_model_le_ge, C10_model_trichotomy, C10_model_nil, C10_model_nil_right, C10_model_unordered, C10_model_unknown_op, C10_model_gt_swap) and to isAllowed for every well-formed resource and well-typed leaf or node (C10_isAllowed_complement / _le_ge / _trichotomy / _nil / _unordered / _unknown_op, and / or iff all / some child, in / has as membership); equality of two to-many ID lists is exactly 'permutations of each other' in the specification and in the model (C10_valEq_ids_iff_perm, C10_valEq_ids_iff_sort, C10_model_ids_iff_perm, C10_isAllowed_ids_iff_perm): multiset, not set, equality (C10_valEq_ids_not_set_counterexample)."
 # Item 6 - C07T (Props/C07T.lean): resolvePath declaratively; "so the order they define is total".
 _c = PROPS["C07"]; _c["modules"] = list(_c.get("modules", ["C07"])) + ["C07T"]; _c["theorems"] = list(_c["theorems"]) + ["C07T_resolvePath_iff_chain", "C07T_resolvePath_iff", "C07T_resolvePath_of_valid", "C07T_resolvePath_needs_inv", "C07T_include_kept", "C07T_include_requested", "C07T_sort_has_id", "C07T_spec_order_total", "C07T_less_total", "C07T_less_panic_possible", "C07T_less_total_wf", "C07T_order_total", "C07T_order_total_wf"]; _c["level_text"] += " Declaratively (Props/C07T.lean): resolvePath σ t words = some rels iff rels is a valid chain of the schema from t (Spec.validChain) whose relationship names are the words, on schemas with C14's invariant (C07T_resolvePath_iff; hypothesis-free form C07T_resolvePath_iff_chain, the invariant shown necessary by C07T_resolvePath_needs_inv), and C07_include_kept is restated with that notion of valid path (C07T_include_kept, C07T_include_requested); 'so the order they define is total': a collection URL's rules contain id (C07T_sort_has_id), hence for two resources with distinct IDs the specification's comparison is never a tie and the model's Less of Range either fails a type assertion (ill-typed values only: C07T_less_panic_possible) or holds in exactly one direction (C07T_order_total, C07T_less_total, C07T_spec_order_total; without the failure alternative under C09's typing hypotheses: C07T_order_total_wf, C07T_less_total_wf)."
+
+# Work package W2: bridges from the two resource implementations to the abstract views the theorems
+# quantify over (Props/Bridge.lean), the partition clause of C09 for the model's `range`
+# (Props/C09P.lean) and the resource-object clauses of C03 at the document level (Props/C03D.lean).
+_BRIDGE_CORE = ["SoftGood_init", "SoftGood_init_wf", "SoftGood_of_wf", "SoftGood_step", "SoftGood_run", "Soft_view_keyed", "Soft_view_wf",
+    "Soft_view_ok", "Soft_view_keyedWf", "Soft_view_ViewWF", "Soft_view_all", "Soft.view_get_eq_get", "Wrapped_view_ok"]
+_c = PROPS["C01"]; _c["modules"] = list(_c.get("modules", ["C01"])) + ["Bridge"]; _c["theorems"] = list(_c["theorems"]) + ["Soft_view_keyedWf", "Wrapped_view_ok", "SoftGood_init", "SoftGood_step", "SoftGood_run", "C01_roundtrip_soft", "C01_roundtrip_wrapped"]; _c["level_text"] += " Bridge (Props/Bridge.lean): the view of a soft resource in the state invariant SoftGood (established by creation, preserved by every Set/AddAttr/AddRel/RemoveField/SetType call in the domain: SoftGood_init, SoftGood_step, SoftGood_run) and the view of a well-typed wrapped value of a struct Check accepts satisfy keyedWf (Soft_view_keyedWf, Wrapped_view_ok), so the round trip holds for the two implementations themselves with only the typing of the stored values and the decoder domain of the times as hypotheses (C01_roundtrip_soft, C01_roundtrip_wrapped)."
+_c = PROPS["C17"]; _c["modules"] = list(_c.get("modules", ["C17"])) + ["Bridge"]; _c["theorems"] = list(_c["theorems"]) + _BRIDGE_CORE + ["C17_equal_refl_soft", "C17_equal_refl_wrapped"]; _c["level_text"] += " Bridge (Props/Bridge.lean): the views of a soft resource in the invariant SoftGood and of a well-typed wrapped value of an accepted struct satisfy ResView.ok, ResView.keyedWf and ViewWF (Soft_view_ok, Soft_view_keyedWf, Soft_view_ViewWF, Wrapped_view_ok; the invariant is established by creation and preserved by every call in the domain: SoftGood_init, SoftGood_step, SoftGood_run), so Equal(r, r) holds for both implementations without a hypothesis on the view (C17_equal_refl_soft, C17_equal_refl_wrapped)."
+_c = PROPS["C19"]; _c["modules"] = list(_c.get("modules", ["C19"])) + ["Bridge"]; _c["theorems"] = list(_c["theorems"]) + ["Soft_view_ViewWF", "Wrapped_view_ok", "C19_add_soft", "C19_add_wrapped"]; _c["level_text"] += " Bridge (Props/Bridge.lean): the domain predicate ViewWF of Add holds of the view of a soft resource of a keyed type without an 'id' field whose stored values are well typed and of a well-typed wrapped value of an accepted struct (Soft_view_ViewWF, Wrapped_view_ok), so Add of either returns normally and appends the snapshot (C19_add_soft, C19_add_wrapped)."
+_c = PROPS["C20"]; _c["modules"] = list(_c.get("modules", ["C20"])) + ["Bridge"]; _c["theorems"] = list(_c["theorems"]) + ["Wrapped_view_ok", "C20_accept_marshal"]; _c["level_text"] += " 'Marshaling it succeeds' (Props/Bridge.lean): for a struct Check accepts and a well-typed wrapped value every Get of the view returns and the view is in the domain of the marshal theorems (Wrapped_view_ok), hence MarshalResource - any prefix, field selection, relationship-data map, meta - neither panics nor fails and writes the object of the specification (C20_accept_marshal)."
+_c = PROPS["C09"]; _c["modules"] = list(_c.get("modules", ["C09"])) + ["C09P"]; _c["theorems"] = list(_c["theorems"]) + ["C09_pages_partition", "C09_pages_cover", "C09_pages_partition_filtered", "C09_allWf_soft"]; _c["level_text"] += " Partition for the model's Range itself (Props/C09P.lean): with collection, IDs, filter, rules and page size fixed there is one ordering of the matching resources such that page n returned by Range is its slice [n*size, (n+1)*size), pages 0..k-1 end to end are its first k*size elements (all of it once k*size reaches its length), every page is a contiguous sublist, two different pages share no ID and pages beyond the end are empty (C09_pages_partition, C09_pages_partition_filtered; coverage for size > 0: C09_pages_cover; AllWf for soft resources in the invariant: C09_allWf_soft). 'The input collection keeps its members and order' is not expressible on the functional model (said in Props/C09P.lean) and stays with the harness."
+_c = PROPS["C03"]; _c["modules"] = list(_c.get("modules", ["C03"])) + ["C03D"]; _c["theorems"] = list(_c["theorems"]) + ["C03_marshalResource_shape", "C03_marshalCollection_shape", "marshalDocument_members", "C03_document_resource_objects", "treeResObjs_marshalDocument", "C03_document_members_clauses", "C03_include_unique_tree", "ResObjShape.spelled", "RelObjShape.spelled"]; _c["level_text"] += " Document level (Props/C03D.lean): for whatever the model's MarshalDocument returns - no well-formedness hypothesis on the resources - the data member is the resource object of the primary resource / the array of those of the collection's members in order / the identifier(s) / null and the included member is the array of the resource objects of the included resources, each with string type, string id, the self link prefix + type + '/' + id and relationship objects carrying the self and related links and linkage data (C03_marshalResource_shape, C03_marshalCollection_shape, C03_document_resource_objects, C03_document_members_clauses); after any history of Include calls no (type, id) pair occurs twice among the resource objects of the data and included members of the marshaled TREE (C03_include_unique_tree)."
